@@ -272,6 +272,47 @@ fn op_point<N: Fld>(p: &OpPt) -> Outcome {
     chk("P /= s", "polynomial::DivAssign<scalar>", g(|| { let mut x = pa(); x /= sn; x }), &sdiv, t2, &mut o);
     chk("-P", "polynomial::Neg", g(|| -pa()), &neg, 0.0, &mut o);
     chk("-&P", "polynomial::Neg", g(|| -&pa()), &neg, 0.0, &mut o);
+    // operands that carry different zero tolerances, and a product whose leading coefficient lies between them: whatever
+    // tolerance governs the product, the six ownership forms of the same product must agree with each other exactly
+    // (differential oracle: no statement about which tolerance is the right one)
+    for (ta, tb) in [(1e-12, 1e-2), (1e-2, 1e-12)] {
+        let mut a2 = a.clone();
+        let mut b2 = b.clone();
+        let (la, lb) = (a2.len() - 1, b2.len() - 1);
+        if a2[la].norm() == 0.0 || b2[lb].norm() == 0.0 {
+            continue;
+        }
+        a2[la] = a2[la] / a2[la].norm() * 1e-4;
+        b2[lb] = b2[lb] / b2[lb].norm() * 1e-3;
+        let pa2 = || { let mut q = mk::<N>(&a2); let _ = q.set_tolerance(ta); q };
+        let pb2 = || { let mut q = mk::<N>(&b2); let _ = q.set_tolerance(tb); q };
+        let forms: Vec<(&str, Result<Polynomial<N>, String>)> = vec![
+            ("P * P", g(|| pa2() * pb2())),
+            ("P * &P", g(|| pa2() * &pb2())),
+            ("&P * P", g(|| &pa2() * pb2())),
+            ("&P * &P", g(|| &pa2() * &pb2())),
+            ("P *= P", g(|| { let mut x = pa2(); x *= pb2(); x })),
+            ("P *= &P", g(|| { let mut x = pa2(); x *= &pb2(); x })),
+        ];
+        n_forms += 6;
+        let first = forms[0].1.as_ref().ok().map(|q| asc(q));
+        for (form, r) in &forms {
+            match (r, &first) {
+                (Ok(q), Some(f0)) => {
+                    let v = asc(q);
+                    if v.len() != f0.len() || v.iter().zip(f0).any(|(x, y)| x != y) {
+                        o.viol("polynomial::Mul", "ownership-forms-agree", format!("{} with tolerances {:e} / {:e}: order {} vs {} for P * P", ctx(form), ta, tb, v.len() - 1, f0.len() - 1));
+                        break;
+                    }
+                }
+                (Err(m), _) => {
+                    o.viol("polynomial::Mul", "no-panic", format!("{}: {}", ctx(form), m));
+                    break;
+                }
+                _ => {}
+            }
+        }
+    }
     o.executions = n_forms;
     o.sig = format!("{}|{}|{}", path(a.len(), b.len()), N::NAME, if p.m > p.n { "lhs-longer" } else if p.m < p.n { "rhs-longer" } else { "equal" });
     o
@@ -282,7 +323,7 @@ impl Check for Operators {
         "operator-forms"
     }
     fn rule(&self) -> String {
-        "all degree pairs m,n <= 8 and one pair per FFT size x 6 patterns x 2 fields; on each, all 32 operator forms (4 ownership + 2 assigning forms of + - *, 12 scalar forms, 2 negations); signature = (product path, field, which operand is longer)".into()
+        "all degree pairs m,n <= 8 and one pair per FFT size x 6 patterns x 2 fields; on each, all 32 operator forms (4 ownership + 2 assigning forms of + - *, 12 scalar forms, 2 negations), and the 6 product forms again on operands with different zero tolerances (they must agree with each other exactly); signature = (product path, field, which operand is longer)".into()
     }
     fn points(&self, _t: Tier) -> Vec<OpPt> {
         let mut pairs: Vec<(usize, usize)> = vec![];
